@@ -83,6 +83,11 @@ pub struct StreamSpec {
     /// returned, which needs the whole exchange to fit into the flow-control windows)
     #[serde(default)]
     pub early_readers: bool,
+    /// subscriber churn around the judged ones: an extra subscriber registers first and goes away
+    /// before the first send, another one joins half-way through; the judged subscribers
+    /// (registered in between) must not notice
+    #[serde(default)]
+    pub churn: bool,
 }
 
 impl StreamSpec {
@@ -252,6 +257,10 @@ where
     let mut rep = StreamReport::default();
     // subscribers first; their registration gets a settle period
     let mut subs: Vec<_> = vec![];
+    let mut leaver = None;
+    if spec.churn {
+        leaver = Some(ACTOR.scope(sub_group, sub_client.subscriber(topic).with_decoder(decoder.clone()).open()).await?);
+    }
     for _ in 0..spec.n_subs.max(1) {
         let mut b = sub_client.subscriber(topic).with_decoder(decoder.clone());
         if let Some((kind, _)) = spec.comp {
@@ -259,6 +268,9 @@ where
         }
         subs.push(ACTOR.scope(sub_group, b.open()).await?);
     }
+    // the first-registered subscriber leaves (the server finds out when it next writes to it)
+    drop(leaver);
+    let mut joiner = None;
     tokio::time::sleep(Duration::from_millis(1000)).await;
     let mut b = pub_client.publisher(topic).with_encoder(encoder);
     if let Some((kind, level)) = spec.comp {
@@ -326,6 +338,17 @@ where
                 let g = gap(i);
                 if g > 0 {
                     tokio::time::sleep(Duration::from_millis(g)).await;
+                }
+                if spec.churn && i == items.len() / 2 && i > 0 && joiner.is_none() {
+                    // a newcomer half-way through (kept alive, never judged)
+                    let mut b = sub_client.subscriber(topic).with_decoder(decoder.clone());
+                    if let Some((kind, _)) = spec.comp {
+                        b = b.with_decompression(make_decomp(kind));
+                    }
+                    if let Ok(mut j) = ACTOR.scope(sub_group, b.open()).await {
+                        joiner = Some(tokio::task::spawn_local(ACTOR.scope(sub_group, async move { while let Some(_) = j.next().await {} })));
+                        tokio::time::sleep(Duration::from_millis(300)).await;
+                    }
                 }
                 let r = if p == Pattern::SendEach { ACTOR.scope(pub_group, publisher.send(it.clone())).await } else { ACTOR.scope(pub_group, publisher.feed(it.clone())).await };
                 if std::env::var("DST_EVENTS").is_ok() {
@@ -489,7 +512,8 @@ pub fn gen_c03(rng: &mut Rng) -> E2eScript {
     let gaps_ms = if many_small || rng.chance(1, 2) { vec![] } else { (0..rng.usize(1, 4)).map(|_| *rng.pick(&[0u64, 0, 1, 50, 150, 2000])).collect() };
     // late readers need the whole exchange to fit into the flow-control windows
     let early_readers = payloads.iter().map(|p| p.0).sum::<usize>() > 400_000 || rng.chance(1, 2);
-    E2eScript { net: mild_net(rng), rt_seed: rng.next(), streams: vec![StreamSpec { codec, comp, batching, n_subs: rng.usize(1, 2), payloads, pattern, gaps_ms, early_readers }] }
+    let churn = !many_small && rng.chance(1, 4);
+    E2eScript { net: mild_net(rng), rt_seed: rng.next(), streams: vec![StreamSpec { codec, comp, batching, n_subs: rng.usize(1, 2), payloads, pattern, gaps_ms, early_readers, churn }] }
 }
 
 /// C14: a swarm of transform configurations per run over one pair of connections.
@@ -503,7 +527,7 @@ pub fn gen_c14(rng: &mut Rng, thorough: bool) -> E2eScript {
             let n = rng.usize(1, 5);
             let payloads: Vec<(usize, u64)> = (0..n).map(|_| (gen_size(rng, big_ok), rng.next())).collect();
             let early_readers = payloads.iter().map(|p| p.0).sum::<usize>() > 400_000 || rng.chance(1, 2);
-            StreamSpec { codec, comp, batching, n_subs: 1, payloads, pattern: Pattern::SendEach, gaps_ms: vec![], early_readers }
+            StreamSpec { codec, comp, batching, n_subs: 1, payloads, pattern: Pattern::SendEach, gaps_ms: vec![], early_readers, churn: false }
         })
         .collect();
     E2eScript { net: NetCfg { seed: rng.next(), loss_ppm: 0, dup_ppm: 0, min_delay_ms: 1, jitter_ms: 0 }, rt_seed: rng.next(), streams }
